@@ -4,6 +4,7 @@ package main
 
 import (
 	"fmt"
+	"math/big"
 	"os"
 	"path/filepath"
 	"regexp"
@@ -19,7 +20,10 @@ type Expr interface{ String() string }
 
 type (
 	EIdent  struct{ Name string }
-	EInt    struct{ V int64 }
+	EInt    struct {
+		V int64
+		S string // decimal text for literals beyond int64
+	}
 	EStr    struct{ V string }
 	EBool   struct{ V bool }
 	ENil    struct{}
@@ -58,7 +62,12 @@ type QVar struct {
 }
 
 func (e EIdent) String() string  { return e.Name }
-func (e EInt) String() string    { return fmt.Sprint(e.V) }
+func (e EInt) String() string {
+	if e.S != "" {
+		return e.S
+	}
+	return fmt.Sprint(e.V)
+}
 func (e EStr) String() string    { return strconv.Quote(e.V) }
 func (e EBool) String() string   { return fmt.Sprint(e.V) }
 func (e ENil) String() string    { return "nil" }
@@ -360,9 +369,12 @@ func (p *specParser) parsePrimary() Expr {
 	case "int":
 		v, err := strconv.ParseInt(t.text, 0, 64)
 		if err != nil {
+			if _, ok := new(big.Int).SetString(t.text, 10); ok {
+				return EInt{S: t.text}
+			}
 			p.fail("bad int %q", t.text)
 		}
-		return EInt{v}
+		return EInt{V: v}
 	case "str":
 		return EStr{t.text}
 	case "op":
